@@ -15,7 +15,9 @@ VARIANTS = {
     "rel":  ["-O2", "-DNDEBUG"],
     # ~1500 internal invariants of oneTBB become oracles
     "dbg":  ["-O2", "-DTBB_USE_ASSERT=1"],
-    "tsan": ["-O1", "-fsanitize=thread", "-DTBB_USE_ASSERT=1", "-fno-omit-frame-pointer"],
+    # no TBB_USE_ASSERT here: assertion-only code reads fields without the synchronisation the real code uses
+    # (e.g. is_poisoned(ctx.my_context_list) in cancel_group_execution vs. a concurrent bind) and would be reported
+    "tsan": ["-O1", "-fsanitize=thread", "-fno-omit-frame-pointer"],
     "asan": ["-O1", "-fsanitize=address,undefined", "-fno-sanitize=vptr", "-fno-sanitize-recover=all",
              "-DTBB_USE_ASSERT=1", "-fno-omit-frame-pointer"],
 }
